@@ -353,7 +353,11 @@ func ZZ_C04_LateUpdate() {
 	ttl2 := vfI64("ttl2")
 	vfAssume(ttl2 >= 1)
 	vfAssume(ttl2 <= 1<<29)
-	s.Set(1, 101, 1, time.Duration(ttl2)) // UPDATE queued, not yet processed
+	c2 := vfI64("cost2")
+	vfAssume(c2 >= 1)
+	vfAssume(c2 <= 3)
+	s.Set(2, 200, 2, 0)                    // a bystander whose accounting must stay exact
+	s.Set(1, 101, c2, time.Duration(ttl2)) // UPDATE (new deadline, possibly new cost) queued, not yet processed
 	vfNote("lateUpdate", 1)
 	vfClockSet(origin + 1<<31) // the new deadline has passed and two fine ticks have begun
 	vfFireTickers()
@@ -367,4 +371,7 @@ func ZZ_C04_LateUpdate() {
 	vfReach("three-ticks")
 	n, l := zzCount(notes, 1)
 	vfAssert("late-update-reclaimed-within-bound", n == 1 && l.reason == EXPIRED && l.val == 101)
+	s.Wait()
+	zzAccounted(s, "late-update")
+	zzViews(s, "late-update")
 }
